@@ -172,6 +172,44 @@ def gen_write_case(rng, i, version, xt, small):
                 lp = sc.add("*", "put", f=0, v=vid, form="vara", mt=mt, coll=1, start=str(a), count=str(b - a), data="hex:" + v[a:b].astype(MEM[mt]).tobytes().hex())
                 lr = sc.add("*", "pread", path=path, f=0, voff=vid, off=a * xsz, len=(b - a) * xsz)
                 checks.append({"put": lp, "read": lr, "err": "OK", "want": be_bytes(conv[a:b], xt), "mask": None, "mt": mt, "vid": vid, "what": "in-range run [%d,%d)" % (a, b), "nel": b - a})
+    # the same rules for attributes: a new attribute in define mode, then the same attribute overwritten in data mode
+    # (same length, which is permitted there); the stored values are read back in the attribute's own type
+    native = XT2MEM[xt]
+
+    attlen = {}
+
+    def att_round(tag, pick):
+        for mt in NUMERIC_MEM:
+            v = vecs[mt]
+            exempt = (version < 5 and xt == cs.NC_BYTE and mt == "uchar")
+            conv, bad, amb = convert(v, MEM[mt], xdt, exempt)
+            good = [k for k in range(len(v)) if not bad[k] and not amb[k]]
+            offenders = [k for k in range(len(v)) if bad[k]]
+            idx = pick(good, offenders)
+            if not idx:
+                continue
+            if tag != "define-mode":
+                # in data mode an attribute may be overwritten but not grow
+                if mt not in attlen:
+                    continue
+                idx = (idx + good[:6])[:attlen[mt]]
+                if len(idx) != attlen[mt]:
+                    continue
+            attlen[mt] = len(idx)
+            sub = v[idx]
+            lp = sc.add("*", "put_att", f=0, v=-1, name="s:a_" + mt, mt=mt, xtype=xt, n=len(idx), data="hex:" + sub.astype(MEM[mt]).tobytes().hex())
+            lr = sc.add("*", "get_att", f=0, v=-1, name="s:a_" + mt, mt=native, nbytes=len(idx) * xsz)
+            anybad = bool(bad[idx].any())
+            want = conv[idx].astype(xdt)
+            checks.append({"put": lp, "read": lr, "err": "ERANGE" if anybad else "OK", "want": want.tobytes(), "mask": np.repeat(~bad[idx], xsz), "mt": mt, "vid": -1,
+                           "what": "attribute-%s (%d of %d unrepresentable)" % (tag, int(bad[idx].sum()), len(idx)), "nel": len(idx)})
+
+    sc.add("*", "redef", f=0)
+    att_round("define-mode", lambda good, off: (good[:2] + off[:1] + good[-2:] + off[-1:])[:6] if len(good) >= 4 else [])
+    # an all-representable attribute as well, so that the overwrite below is the only source of its range error
+    sc.add("*", "enddef", f=0)
+    att_round("data-mode-overwrite", lambda good, off: (off[-1:] + good[1:3] + good[-3:-1] + off[:1])[:6] if len(good) >= 4 else [])
+    att_round("data-mode-overwrite-clean", lambda good, off: (good[2:5] + good[-3:])[:6] if len(good) >= 6 else [])
     # text <-> number never converts
     lt1 = sc.add("*", "put", f=0, v=0, form="vara", mt="text", coll=1, start="0", count="2", data="hex:4142")
     lt2 = sc.add("*", "put", f=0, v=2, form="vara", mt="int", coll=1, start="0", count="1", data="hex:01000000")
